@@ -646,9 +646,16 @@ def no_unsafe_memoisation(P: Program, rep: Report, rule: str, modules: List[str]
             mutable_params = [a.arg for a in params if a.arg not in ("self", "cls") and
                               (a.annotation is None or ast.unparse(a.annotation).replace("'", "").replace('"', "") not in IMMUTABLE_ANN)]
             rets = [r for r in own_nodes(fi.node) if isinstance(r, ast.Return) and r.value is not None]
-            mutable_ret = any(isinstance(r.value, (ast.List, ast.Dict, ast.Set, ast.ListComp, ast.DictComp, ast.SetComp, ast.Call, ast.Name, ast.Attribute))
-                              and not (isinstance(r.value, ast.Call) and ast.unparse(r.value.func) in ("str", "int", "tuple", "len", "\" \".join", "\", \".join"))
-                              for r in rets)
+            def _may_be_mutable(v):
+                if isinstance(v, ast.Tuple):      # a tuple is as shared as what it holds
+                    return any(_may_be_mutable(x.value if isinstance(x, ast.Starred) else x) for x in v.elts)
+                if isinstance(v, ast.IfExp):
+                    return _may_be_mutable(v.body) or _may_be_mutable(v.orelse)
+                if isinstance(v, ast.Call) and ast.unparse(v.func) == "tuple" and len(v.args) == 1 and isinstance(v.args[0], (ast.GeneratorExp, ast.ListComp)):
+                    return _may_be_mutable(v.args[0].elt)
+                return isinstance(v, (ast.List, ast.Dict, ast.Set, ast.ListComp, ast.DictComp, ast.SetComp, ast.Call, ast.Name, ast.Attribute)) \
+                    and not (isinstance(v, ast.Call) and ast.unparse(v.func) in ("str", "int", "tuple", "len", "\" \".join", "\", \".join"))
+            mutable_ret = any(_may_be_mutable(r.value) for r in rets)
             why = []
             if owner_mutable:
                 why.append("it is a method of a mutable object (the cache does not see later changes of its attributes)")
